@@ -106,17 +106,43 @@ def impl_eval(case):
                 csv_out = {} if case.get('defaultenc') else {'out_encoding': 'utf-8'}
                 if case.get('defaultenc'):       # no --in-encoding / --out-encoding: the platform's text encoding both ways
                     open(p, 'w', newline='').write(text)
-                with contextlib.redirect_stdout(io.StringIO()):
-                    mci_csv_to_ipm.cli_run(in_filename=p, out_filename=p + '.ipm', out_encoding=codec,
-                                           no1014blocking=not blocked, **csv_enc)
-                    mci_ipm_to_csv.cli_run(in_filename=p + '.ipm', out_filename=p + '.out.csv', in_encoding=codec,
-                                           no1014blocking=not blocked, **csv_out)
+                extra = {}
+                saved_env = os.environ.get('CARDUTIL_CONFIG')
+                if case.get('cfgfile'):
+                    # --config-file with the packaged configuration plus element 7 (which the packaged one lacks) in the
+                    # bit configuration and in the output columns; optionally a CARDUTIL_CONFIG directory holding a
+                    # DIFFERENT site configuration, over which the file named on the command line takes precedence
+                    import copy
+                    import json
+                    cfg = copy.deepcopy(config)
+                    cfg['bit_config']['7'] = {'field_name': 'extra', 'field_type': 'FIXED', 'field_length': 10}
+                    cfg['output_data_elements'] = list(cfg['output_data_elements']) + ['DE7']
+                    cpath = os.path.join(d, 'my.json')
+                    json.dump(cfg, open(cpath, 'w'))
+                    extra['config_file'] = cpath
+                    if case['cfgfile'] == 'env':
+                        site = copy.deepcopy(config)
+                        site['output_data_elements'] = ['MTI', 'DE2']
+                        os.mkdir(os.path.join(d, 'site'))
+                        json.dump(site, open(os.path.join(d, 'site', 'cardutil.json'), 'w'))
+                        os.environ['CARDUTIL_CONFIG'] = os.path.join(d, 'site')
+                try:
+                    with contextlib.redirect_stdout(io.StringIO()):
+                        mci_csv_to_ipm.cli_run(in_filename=p, out_filename=p + '.ipm', out_encoding=codec,
+                                               no1014blocking=not blocked, **csv_enc, **extra)
+                        mci_ipm_to_csv.cli_run(in_filename=p + '.ipm', out_filename=p + '.out.csv', in_encoding=codec,
+                                               no1014blocking=not blocked, **csv_out, **extra)
+                finally:
+                    if case.get('cfgfile') == 'env':
+                        if saved_env is None:
+                            os.environ.pop('CARDUTIL_CONFIG', None)
+                        else:
+                            os.environ['CARDUTIL_CONFIG'] = saved_env
                 got_text = (open(p + '.out.csv', 'r', newline='') if case.get('defaultenc')
                             else open(p + '.out.csv', 'r', encoding='utf-8', newline='')).read()
             finally:
-                for f in os.listdir(d):
-                    os.unlink(os.path.join(d, f))
-                os.rmdir(d)
+                import shutil
+                shutil.rmtree(d, ignore_errors=True)
         else:
             ipm = io.BytesIO()
             ipm.close = lambda: None
@@ -147,6 +173,8 @@ def impl_eval(case):
 
 
 def model_line(case):
+    if case.get('cfgfile'):
+        return None          # a configuration the model's packaged tables do not have: judged by the round trip itself
     rows = ['|'.join([]) for _ in ()]
     wires = []
     for r in case['rows']:
@@ -211,4 +239,12 @@ def explore(run, tier):
             rows = [{'MTI': '1240', 'DE2': '5' * 16, 'PDS0023': v} for v in ('CAFÉ', 'Ölß Ü', 'naïve señor', 'plain')]
             cases.append({'rows': rows, 'cols': ['MTI', 'DE2', 'PDS0023'], 'codec': codec, 'b': b, 'cli': True,
                           'defaultenc': True})
+    # the command entry points with --config-file (an element the packaged configuration lacks, first in the first
+    # record), alone and together with a CARDUTIL_CONFIG directory holding another configuration
+    for codec in ('latin_1', 'cp500'):
+        for b in (0, 1):
+            for how in ('file', 'env'):
+                rows = [{'MTI': '1240', 'DE2': '5' * 16, 'DE7': f'{i:010d}', 'DE38': 'AB12 Z'} for i in range(3)]
+                cases.append({'rows': rows, 'cols': ['MTI', 'DE2', 'DE7', 'DE38'], 'codec': codec, 'b': b, 'cli': True,
+                              'cfgfile': how})
     run.correspond(__name__, cases, use_model=run.use_model, chunk=12)
